@@ -529,6 +529,7 @@ pub fn exhaustive_unit<C: Subject + Send + 'static>(
 pub fn decode_ops(t: &mut Tape, max_elems: usize) -> Vec<IOp> {
     let mut ops = Vec::new();
     let mut elems = 0usize;
+    let mut big_runs = 0usize;
     let special = |t: &mut Tape| -> usize {
         match t.below(12) {
             0 => 0,
@@ -545,7 +546,22 @@ pub fn decode_ops(t: &mut Tape, max_elems: usize) -> Vec<IOp> {
             _ => t.u64() as usize,
         }
     };
+    // after a very long run only a short tail follows (every op re-checks the whole container)
+    let mut tail: Option<usize> = None;
     while !t.exhausted() && elems < max_elems.max(1) && ops.len() < 400 {
+        if let Some(left) = tail.as_mut() {
+            if *left == 0 {
+                break;
+            }
+            *left -= 1;
+            match t.below(6) {
+                0 | 1 => ops.push(IOp::Clear),
+                2 | 3 => ops.push(IOp::Push(special(t))),
+                4 => ops.push(IOp::Push(0)),
+                _ => ops.push(IOp::Extend((0..t.below(5)).map(|i| i * 3).collect())),
+            }
+            continue;
+        }
         match t.below(12) {
             0 | 1 | 2 => {
                 // arithmetic run, possibly starting at 0
@@ -558,14 +574,21 @@ pub fn decode_ops(t: &mut Tape, max_elems: usize) -> Vec<IOp> {
                     4 => usize::MAX / 3,
                     _ => special(t),
                 };
-                let n = if t.chance(6) { [65535usize, 65536, 65537, 70000][t.below(4)] } else { t.len(6, 300) };
+                // at most one very long run per case, followed by a short tail of clears and pushes
+                let n = if big_runs < 1 && t.chance(6) {
+                    big_runs += 1;
+                    tail = Some(2 + t.below(6));
+                    [65535usize, 65536, 65537, 70000][t.below(4)]
+                } else {
+                    t.len(6, 300)
+                };
                 let mut xs = Vec::with_capacity(n);
                 let mut v = start;
                 for _ in 0..n {
                     xs.push(v);
                     v = v.wrapping_add(stride);
                 }
-                elems += n;
+                elems += n.min(300);
                 // very long runs only as one extend (a per-element push re-checks the whole
                 // container every time: quadratic)
                 if n > 1000 || t.bool() {
@@ -666,11 +689,12 @@ pub fn shrink_ops(ops: Vec<IOp>, mut fails: impl FnMut(&[IOp]) -> bool) -> Vec<I
     let expanded: Vec<IOp> = cur
         .iter()
         .flat_map(|o| match o {
-            IOp::Extend(xs) => xs.as_slice().iter().map(|x| IOp::Push(*x)).collect::<Vec<_>>(),
+            // (very long extends stay whole: per-element pushes re-check the container every time)
+            IOp::Extend(xs) if xs.len() <= 200 => xs.as_slice().iter().map(|x| IOp::Push(*x)).collect::<Vec<_>>(),
             o => vec![o.clone()],
         })
         .collect();
-    if fails(&expanded) {
+    if expanded.len() != cur.len() && fails(&expanded) {
         cur = expanded;
     }
     let mut budget = 6000usize;
@@ -696,6 +720,24 @@ pub fn shrink_ops(ops: Vec<IOp>, mut fails: impl FnMut(&[IOp]) -> bool) -> Vec<I
                 break;
             }
             chunk /= 2;
+        }
+        // halve long extends
+        for i in 0..cur.len() {
+            while budget > 0 {
+                let IOp::Extend(xs) = &cur[i] else { break };
+                if xs.len() < 2 {
+                    break;
+                }
+                let mut cand = cur.clone();
+                cand[i] = IOp::Extend(xs[..xs.len() / 2].to_vec());
+                budget -= 1;
+                if fails(&cand) {
+                    cur = cand;
+                    progress = true;
+                } else {
+                    break;
+                }
+            }
         }
         for i in 0..cur.len() {
             if budget == 0 {
